@@ -94,10 +94,13 @@ class Layout:
     comment: bool = False
     blank_lines: bool = False
     call_space: str = ''           # between a function name and its opening parenthesis (Python allows it)
+    newline: str = '\n'            # line separator: \n, \r\n or \r (str.splitlines treats them alike)
+    final_newline: bool = False    # the script ends with a line separator
 
     @staticmethod
     def random(rnd: random.Random) -> 'Layout':
-        return Layout(op_space=rnd.choice([' ', '', '  ']), eq_space=rnd.choice([' ', '', '   ']),
+        return Layout(newline=rnd.choice(['\n', '\n', '\r\n', '\r']), final_newline=rnd.random() < 0.3,
+                      op_space=rnd.choice([' ', '', '  ', '\t']), eq_space=rnd.choice([' ', '', '   ', '\t']),
                       idx_inner=rnd.choice(['', ' ']), brace_inner=rnd.choice(['', ' ', '  ']), plus_sign=rnd.random() < 0.5,
                       zero_index=rnd.random() < 0.3, wrap_rhs=rnd.random() < 0.3, comment=rnd.random() < 0.3,
                       blank_lines=rnd.random() < 0.3, call_space=rnd.choice(['', '', ' ', '  ']))
@@ -194,7 +197,8 @@ def render_script(eqs: Sequence[Eq], lay: Layout = PLAIN) -> str:
         if lay.comment and i == 0:
             lines.append('# leading comment line (1 of 2, don\'t read `this` Zq7[-15]')
         lines.append(render_eq(q, lay))
-    return '\n'.join(lines)
+    # (a wrapped right-hand side contains line breaks of its own: they follow the layout's separator too)
+    return lay.newline.join(ln for chunk in lines for ln in chunk.split('\n')) + (lay.newline if lay.final_newline and lines else '')
 
 
 # --------------------------------------------------------------------------------------------------
